@@ -326,6 +326,10 @@ type dlCase struct {
 	desc    *coll.Desc
 	prefill []coll.Op
 	op      coll.Op
+	// alias: the arguments of the receiver's own type are the receiver itself (m.PutAll(m)): a bulk
+	// operation that holds the argument's lock while it calls a public method of the receiver
+	// blocks on its own lock
+	alias bool
 }
 
 func selfDeadlockCases(d *coll.Desc) []dlCase {
@@ -340,9 +344,18 @@ func selfDeadlockCases(d *coll.Desc) []dlCase {
 		if sets == nil {
 			continue
 		}
-		for _, a := range sets {
+		takesSelf := false
+		for i := 1; i < m.Type.NumIn(); i++ {
+			if m.Type.In(i) == reflect.TypeOf(obj) {
+				takesSelf = true
+			}
+		}
+		for ai, a := range sets {
 			for _, p := range pf {
-				out = append(out, dlCase{d, p, coll.MkOp(m.Name, a...)})
+				out = append(out, dlCase{d, p, coll.MkOp(m.Name, a...), false})
+				if takesSelf && ai == 0 {
+					out = append(out, dlCase{d, p, coll.MkOp(m.Name, a...), true})
+				}
 			}
 		}
 	}
@@ -356,9 +369,19 @@ func runSelfDeadlock(c *evid.Ctx, dc dlCase) {
 		for _, o := range dc.prefill {
 			coll.Apply(obj, o)
 		}
+		op := dc.op
+		if dc.alias {
+			op.Args = append([]reflect.Value{}, op.Args...)
+			for i, a := range op.Args {
+				if a.Type() == reflect.TypeOf(obj) {
+					op.Args[i] = reflect.ValueOf(obj)
+				}
+			}
+			op.Label = op.Method + "(the receiver itself)"
+		}
 		// fresh args for stateful arguments (streams)
 		x.Spawn("T0", func() {
-			res = coll.Apply(obj, dc.op)
+			res = coll.Apply(obj, op)
 		})
 		return func() string {
 			if x.Deadlock {
@@ -380,7 +403,11 @@ func runSelfDeadlock(c *evid.Ctx, dc dlCase) {
 	c.Count("transitions", int64(x.Steps))
 	if verdict == "self-deadlock" {
 		key := fmt.Sprintf("C10:%s.%s:self-deadlock", dc.desc.Name, dc.op.Method)
-		c.Violation(key, fmt.Sprintf("%s.%s blocks forever on the instance's own lock (single thread, prefill %d elements, blocked at %v)", dc.desc.Name, dc.op.Label, len(dc.prefill), x.Blocked),
+		lbl := dc.op.Label
+		if dc.alias {
+			lbl = dc.op.Method + "(the receiver itself)"
+		}
+		c.Violation(key, fmt.Sprintf("%s.%s blocks forever on the instance's own lock (single thread, prefill %d elements, blocked at %v)", dc.desc.Name, lbl, len(dc.prefill), x.Blocked),
 			map[string]interface{}{"engine": "E1", "kind": "self-deadlock", "type": dc.desc.Name, "op": dc.op.Label, "prefill": len(dc.prefill)})
 	} else if verdict != "" {
 		key := fmt.Sprintf("C10:%s.%s:%s", dc.desc.Name, dc.op.Method, verdict)
